@@ -778,6 +778,17 @@ def call_native_method(it, recv, name, args, kwargs, pc):
         if name == "__str__":
             return to_str(it, recv, pc)
         raise Unsupported("native method %s on object" % name)
+    if t is U and I.has_special(recv):
+        # receiver is "one of several heap objects": the method runs on each under its guard
+        if any(type(leaf) is Pair for _, leaf in recv.alts):
+            raise Unsupported("method %s on a union with two-sided heap alternatives" % name)
+        outs = []
+        for g_, leaf in recv.alts:
+            apc = vc.c_andg(pc, g_)
+            if vc.c_is_false(apc):
+                continue
+            outs.append((g_, call_native_method(it, leaf, name, args, kwargs, apc)))
+        return vc.mk_union(outs, sweep=False)
     # plain values (concrete or union of concrete)
     leaf0 = None
     for g, leaf in vc.alts(recv):
